@@ -917,7 +917,6 @@ func main() {
 		j     *job
 		emit  func(res *Result) // adds the Coq case
 		desc  any
-		known bool // a panic is the expected observation (comp7)
 	}
 	var ps []*pending
 	want := func(k string) bool { return *only == "" || strings.Contains(","+*only+",", ","+k+",") }
@@ -962,12 +961,18 @@ func main() {
 		for _, c := range corpusExp() {
 			addExp(c, "exp-corpus")
 		}
+		// F-C20-6 corpus (repaired by 7ecbc76): an out-of-range Compression enum value must be sent
+		// uncompressed, without a panic; judged as the option "no compression"
 		for _, fam := range []string{"trace", "metric", "log"} {
-			p := &pending{j: &job{sc: Scenario{Kind: "comp7", Fam: fam, Proto: "http", Opts: []Opt{{K: "insecure"}, {K: "endpoint", S: "{A}"}}}}, known: true}
-			p.desc = map[string]any{"exporter": fam + "/http", "options": "WithCompression(Compression(7))"}
-			fam := fam
+			c := &expCase{Fam: fam, Proto: "http", Note: "corpus: WithCompression(Compression(7)) over generic gzip (judged as OCompression false)",
+				Opts: []Opt{{K: "insecure"}, {K: "endpoint", S: "{A}"}, {K: "compression", B: false}}}
+			c.Env[genComp] = "gzip"
+			p := &pending{j: &job{sc: c.scenario("comp7")}}
+			p.j.sc.Opts = []Opt{{K: "insecure"}, {K: "endpoint", S: "{A}"}} // the child adds the raw enum value 7
+			p.desc = map[string]any{"exporter": fam + "/http", "options": "WithEndpoint, WithInsecure, WithCompression(Compression(7))", "env": p.j.sc.Env}
 			p.emit = func(res *Result) {
-				w.Add(vgen.App("CKnownPanic", "6", vgen.Bool(res.Panic != "")), map[string]any{"exporter": fam + "/http", "option": "WithCompression(Compression(7))", "panic": res.Panic}, "exp-compression-enum", true)
+				term, desc := c.term(res)
+				w.Add(term, desc, "exp-compression-enum", true)
 			}
 			ps = append(ps, p)
 		}
@@ -1189,7 +1194,7 @@ func main() {
 			os.Exit(2)
 		case j.res.Hang:
 			w.Violation("hang: scenario still running after 45s", map[string]any{"scenario": p.desc, "stderr": tail(j.log, 1500)})
-		case j.res.Panic != "" && !p.known:
+		case j.res.Panic != "":
 			w.Violation("panic: "+j.res.Panic, map[string]any{"scenario": p.desc, "stderr": tail(j.log, 1500)})
 		default:
 			p.emit(j.res)
